@@ -153,6 +153,22 @@ fn c20_o1_q_int_float_exact_on_integral_floats() {
     assert!(r == x.cmp(&y), "order: Int vs integral Float is the exact order");
 }
 
+/// Int vs a Float that carries a fraction: f = m/4 for any |m| <= 2^53 is exactly representable and x ? f  <=>  4x ? m.
+#[kani::proof]
+#[kani::unwind(4)]
+fn c20_o1_q_int_float_exact_on_quarter_floats() {
+    let x: i64 = kani::any();
+    let m: i64 = kani::any();
+    kani::assume(m.unsigned_abs() <= TWO53);
+    let f = (m as f64) * 0.25;
+    let r = order_compare(&Value::Int(x), &Value::Float(f));
+    let rr = order_compare(&Value::Float(f), &Value::Int(x));
+    kani::cover!(m < 0 && m % 4 != 0 && x == m / 4, "witness: negative float with a fraction next to the integer");
+    let want = (x as i128 * 4).cmp(&(m as i128));
+    assert!(r == want, "order: Int vs quarter-valued Float is the exact order");
+    assert!(rr == want.reverse(), "order: quarter-valued Float vs Int is the exact order");
+}
+
 // =============================================================================================
 // C23-O1: cypher_equals is an equivalence on non-null non-NaN scalars; null in => null out
 // =============================================================================================
@@ -290,6 +306,28 @@ cmp_pair!(c23_o2_q_ii, 'I', 'I');
 cmp_pair!(c23_o2_q_if, 'I', 'F');
 cmp_pair!(c23_o2_q_fi, 'F', 'I');
 cmp_pair!(c23_o2_q_ff, 'F', 'F');
+
+/// Int vs a Float with a fraction (f = m/4, exact): <, >, = follow 4x ? m.
+#[kani::proof]
+#[kani::unwind(4)]
+fn c23_o2_q_int_vs_quarter_float_exact() {
+    let x: i64 = kani::any();
+    let m: i64 = kani::any();
+    kani::assume(m.unsigned_abs() <= TWO53);
+    let (a, b) = (Value::Int(x), Value::Float((m as f64) * 0.25));
+    let lt = compare_values(&a, &b, |o| o == Ordering::Less);
+    let gt = compare_values(&a, &b, |o| o == Ordering::Greater);
+    let flt = compare_values(&b, &a, |o| o == Ordering::Less);
+    let eq = cypher_equals(&a, &b);
+    let (lt, gt, flt, eq) = (is_true(&lt), is_true(&gt), is_true(&flt), is_true(&eq));
+    std::mem::forget((a, b));
+    kani::cover!(m < 0 && m % 4 != 0 && x == m / 4, "witness: negative float with a fraction next to the integer");
+    let want = (x as i128 * 4).cmp(&(m as i128));
+    assert!(lt == (want == Ordering::Less), "compare: Int < quarter-valued Float is exact");
+    assert!(gt == (want == Ordering::Greater), "compare: Int > quarter-valued Float is exact");
+    assert!(flt == (want == Ordering::Greater), "compare: quarter-valued Float < Int is exact");
+    assert!(eq == (want == Ordering::Equal), "compare: Int = quarter-valued Float is exact");
+}
 
 macro_rules! cmp_nan {
     ($name:ident, $k:expr) => {
